@@ -34,7 +34,10 @@ type c19Case struct {
 	NAddr   int     `json:"naddr"`
 	Initial string  `json:"initial"` // ok | fail
 	Hist    []c19Ev `json:"history"`
+	Tail    string  `json:"tail,omitempty"` // static-other: the list ends with a static entry of the other transport on another port; same-name: every host name is listed a second time with the other transport (same port)
 }
+
+const c19TailAddr = "127.0.9.9:7100"
 
 var c19Names = []string{"be-a.example.net", "be-b.example.net"}
 
@@ -44,6 +47,7 @@ type c19Ref struct {
 	cur   []c19Ev // current scripted outcome per host
 	set   [][]string
 	fails []int
+	tail  bool
 }
 
 func (r *c19Ref) period() {
@@ -68,6 +72,9 @@ func (r *c19Ref) period() {
 
 func (r *c19Ref) expected() []string {
 	var all []string
+	if r.tail {
+		all = append(all, c19TailAddr)
+	}
 	for _, s := range r.set {
 		for _, a := range s {
 			all = append(all, a+":7000")
@@ -95,8 +102,17 @@ func c19Exec(cs c19Case) (string, string, string) {
 	for h := 0; h < cs.NHosts; h++ {
 		bes = append(bes, fmt.Sprintf("%s://%s:7000", cs.Proto, c19Names[h]))
 	}
+	other := map[string]string{"udp": "tcp", "tcp": "udp"}[cs.Proto]
+	if cs.Tail == "static-other" {
+		bes = append(bes, other+"://"+c19TailAddr)
+	}
+	if cs.Tail == "same-name" {
+		for h := 0; h < cs.NHosts; h++ {
+			bes = append(bes, fmt.Sprintf("%s://%s:7000", other, c19Names[h]))
+		}
+	}
 	cfg := RCfg{Name: "svc.example.com", DialogTimeout: 1200, Listens: []RListen{{Addr: "127.0.0.1", UDP: 5060, TCP: 5062, Backends: bes}}}
-	ref := &c19Ref{cur: make([]c19Ev, cs.NHosts), set: make([][]string, cs.NHosts), fails: make([]int, cs.NHosts)}
+	ref := &c19Ref{tail: cs.Tail == "static-other", cur: make([]c19Ev, cs.NHosts), set: make([][]string, cs.NHosts), fails: make([]int, cs.NHosts)}
 	for h := 0; h < cs.NHosts; h++ {
 		if cs.Initial == "fail" {
 			ref.cur[h] = c19Ev{Host: h, Fail: true}
@@ -120,6 +136,8 @@ func c19Exec(cs c19Case) (string, string, string) {
 			w.tcp[a] = w.S.TCPListen(a)
 		}
 	}
+	w.udp[c19TailAddr] = w.S.UDPPeer(c19TailAddr)
+	w.tcp[c19TailAddr] = w.S.TCPListen(c19TailAddr)
 	// startup: the initial resolution (and the first pass of the periodic goroutine) used the initial outcome
 	if cs.Initial == "ok" {
 		for h := range ref.set {
@@ -231,6 +249,9 @@ func c19Exec(cs c19Case) (string, string, string) {
 					open++
 				}
 			}
+			if cs.Tail == "static-other" {
+				open++ // the static tail entry is a TCP backend: no socket of its own
+			}
 			if open != len(exp) {
 				return "backend-sockets-not-closed", fmt.Sprintf("%s: %d backends resolved but %d backend sockets are open", desc, len(exp), open)
 			}
@@ -323,18 +344,24 @@ func c19Run(c *Ctx) {
 		naddr   int
 		initial string
 		depth   int
+		tail    string
 	}
 	var plans []plan
 	for _, pr := range []string{"udp", "tcp"} {
 		for _, in := range []string{"ok", "fail"} {
-			plans = append(plans, plan{pr, 1, naddr, in, -1})
+			plans = append(plans, plan{pr, 1, naddr, in, -1, ""})
 		}
 	}
 	d2 := 4
 	if c.Thorough() {
 		d2 = 5
 	}
-	plans = append(plans, plan{"udp", 2, 2, "ok", d2}, plan{"tcp", 2, 2, "fail", d2})
+	plans = append(plans, plan{"udp", 2, 2, "ok", d2, ""}, plan{"tcp", 2, 2, "fail", d2, ""})
+	// mixed lists: host-name entries followed by a static entry of the other transport on another port
+	plans = append(plans, plan{"udp", 1, naddr, "ok", -1, "static-other"}, plan{"tcp", 1, naddr, "ok", d2, "static-other"}, plan{"udp", 2, 2, "ok", d2 - 1, "static-other"})
+	// one host name listed under BOTH transports with the same port: the address-keyed tables of the
+	// rotation cannot hold two backends with one host:port (tracked finding, see KNOWN_FINDINGS.txt)
+	plans = append(plans, plan{"udp", 1, naddr, "ok", d2, "same-name"}, plan{"tcp", 1, naddr, "ok", d2 - 1, "same-name"})
 	for _, pl := range plans {
 		pl := pl
 		var evs []c19Ev
@@ -342,12 +369,17 @@ func c19Run(c *Ctx) {
 			evs = append(evs, c19Outcomes(h, pl.naddr, pl.nhosts == 1)...)
 		}
 		st, tr, done := BFSReplay(c, pl.depth, evs, true, func(h []c19Ev) (string, bool) {
-			cs := c19Case{pl.proto, pl.nhosts, pl.naddr, pl.initial, h}
+			cs := c19Case{pl.proto, pl.nhosts, pl.naddr, pl.initial, h, pl.tail}
 			key, cl, detail := c19Exec(cs)
 			c.Res.Executions++
 			c.Res.Evaluations++
 			if len(h) > 1 {
 				c.Res.Nontrivial++
+			}
+			if cl != "" && pl.tail == "same-name" {
+				// its own clause names: never collapsed with a violation found under another configuration
+				c.Violate("both-transports-"+cl+"|same-name", "both-transports-"+cl, detail, cs)
+				return "", false
 			}
 			if cl != "" {
 				var ts []string
@@ -377,7 +409,7 @@ func c19Run(c *Ctx) {
 
 func init() {
 	addCheck(&Check{ID: "C19", Level: "model_checking", Collapse: true,
-		Rule:   "explicit-state BFS by replay TO A FIXPOINT over resolution outcomes {failure, success with every non-empty subset of 3 (thorough 4) addresses, in two answer orders} for one host name (state = resolver addresses x consecutive failures x rotation list and cursor x scripted outcome: finite), for udp and tcp backends and for a successful / failed initial resolution; and to depth 4 (thorough 5) for two host names with disjoint address universes feeding one rotation; the real periodic goroutine is driven by clock steps of one period and the world runs to quiescence between steps; after every step: 2k+1 dispatches must reach exactly the resolved set, the proxy's attribution index equals it, a fabricated response from every address of the universe binds a dialog iff the address is a current backend, sockets / connections of vanished backends are closed; non-trivial = history longer than one outcome",
+		Rule:   "explicit-state BFS by replay TO A FIXPOINT over resolution outcomes {failure, success with every non-empty subset of 3 (thorough 4) addresses, in two answer orders} for one host name (state = resolver addresses x consecutive failures x rotation list and cursor x scripted outcome: finite), for udp and tcp backends and for a successful / failed initial resolution; and to depth 4 (thorough 5) for two host names with disjoint address universes feeding one rotation; the same again for backend lists that end with a static entry of the OTHER transport on another port (udp host name to a fixpoint, tcp and two host names to depth 4 / 3), and for a host name listed under both transports with the same port (depth 3-4; tracked finding); the real periodic goroutine is driven by clock steps of one period and the world runs to quiescence between steps; after every step: 2k+1 dispatches must reach exactly the resolved set, the proxy's attribution index equals it, a fabricated response from every address of the universe binds a dialog iff the address is a current backend, sockets / connections of vanished backends are closed; non-trivial = history longer than one outcome",
 		Assume: []string{"a successful lookup never returns an empty list (as net.LookupIP)", "overlapping address sets of two host names are outside the stated domain"},
 		Run:    c19Run,
 		Replay: func(c *Ctx, raw json.RawMessage) string {
